@@ -7,6 +7,7 @@ from guards import is_derived
 from r_guards import short_fn
 from r_ef import make_inliner, struct_literal_fields
 from sym import *  # noqa
+from sym import _is_one
 from ir import *  # noqa
 
 VEC_ADTS = ("bits::bit_vec::BitVec", "bits::bit_vec::AtomicBitVec", "bits::bit_field_vec::BitFieldVec", "bits::bit_field_vec::AtomicBitFieldVec")
@@ -154,7 +155,7 @@ class TailAnalysis:
         """n = Index(backend, full_words). Climb to see how the word is used."""
         F = self.F
         ps = self.pm.get(id(n), ())
-        mask = mk_op("-", mk_op("<<", ("int", 1), res), ("int", 1))
+        mask = ("lowmask", res)
         sh = mk_op("-", B, res)
         # is it the target of an assignment?
         cur = n
@@ -191,7 +192,7 @@ class TailAnalysis:
                     self.problems.append(("last-word-shift", "the partial last word is shifted by `%s` instead of `BITS - len*width %% BITS`: bits after the last element reach the result" % tshow(W.T.term(p["r"])), F.loc(p)))
                     return
                 if op == "&":
-                    ot = W.T.term(other)
+                    ot = canon_masks(W.T.term(other))
                     if ot == mask or ot == ("un", "!", mask):
                         # masked read (keeping either the live bits or, inside a read-modify-write, the dead bits)
                         if ot == mask:
@@ -216,15 +217,15 @@ class TailAnalysis:
         F = self.F
         old = W.T.term(idxnode)
         if asg["k"] == "AssignOp":
-            rt = W.T.term(asg["r"])
+            rt = canon_masks(W.T.term(asg["r"]))
             op = asg["op"]
-            # `&= MAX << residual` (clears only the live low bits)
-            ok = op == "&=" and rt[0] == "op" and rt[1] == "<<" and rt[2][0] == "def" and rt[2][1].endswith("MAX") and rt[3] == res
-            ok = ok or (op == "&=" and rt == ("un", "!", mask))
+            # `&= MAX << residual` == `&= !lowmask(residual)` (clears only the live low bits)
+            ok = op == "&=" and rt == ("un", "!", mask)
             if not ok:
                 self.problems.append(("last-word-write", "the partial last word is updated by `%s`, which is not confined to its low len*width %% BITS bits" % show(F, asg)[:160], F.loc(asg)))
             return
-        rt = W.T.term(asg["r"])
+        rt = canon_masks(W.T.term(asg["r"]))
+        old = canon_masks(old)
         d = None
         if rt[0] == "op" and rt[1] == "|":
             for a, v in ((rt[2], rt[3]), (rt[3], rt[2])):
@@ -236,9 +237,9 @@ class TailAnalysis:
     def check_last_write_atomic(self, W, call, idxnode, res, mask):
         F = self.F
         nm = call["name"]
-        a0 = W.T.term(call["args"][0])
+        a0 = canon_masks(W.T.term(call["args"][0]))
         if nm == "fetch_and":
-            ok = (a0[0] == "op" and a0[1] == "<<" and a0[2][0] == "def" and a0[2][1].endswith("MAX") and a0[3] == res) or a0 == ("un", "!", mask)
+            ok = a0 == ("un", "!", mask)
         elif nm == "store":
             old_load = None
             ok = False
@@ -323,15 +324,19 @@ def skeleton(F, b, inl):
             for a in cond_atoms(W.T, n, True):
                 items.append(("cmp",) + tuple(repr(rename_vars(x, ren)) if isinstance(x, tuple) else x for x in a))
         elif k == "Binary" and n["op"] in ("<<", ">>", "&", "|", "^"):
-            items.append(("bit", repr(rename_vars(W.T.term(n), ren))))
+            ct = canon_masks(W.T.term(n))
+            if n["op"] == "<<" and _is_one(W.T.term(n["l"])):
+                # the shift inside `(1 << r) - 1`: recorded as the mask it builds (same item as `MAX >> (BITS - r)`)
+                ct = ("lowmask", W.T.term(n["r"]))
+            items.append(("bit", repr(rename_vars(ct, ren))))
         elif k == "Index":
             items.append(("idx", repr(rename_vars(W.T.term(n["i"]), ren))))
         elif k in ("Assign", "AssignOp"):
             t = W.T.term(n["r"])
             if not (n["l"].get("k") == "Path" and mentions(t, lambda x: x[0] == "call" and "Iterator" in x[1])):
-                items.append(("asg", n.get("op", "="), repr(rename_vars(t, ren))))
+                items.append(("asg", n.get("op", "="), repr(rename_vars(canon_masks(t), ren))))
         elif k == "MethodCall" and n["name"] in ("store", "fetch_and", "fetch_or", "fetch_xor", "load", "count_ones"):
-            items.append(("call", n["name"], tuple(repr(rename_vars(W.T.term(a), ren)) for a in n["args"] if F.ty(a) not in ("std::sync::atomic::Ordering",))))
+            items.append(("call", n["name"], tuple(repr(rename_vars(canon_masks(W.T.term(a)), ren)) for a in n["args"] if F.ty(a) not in ("std::sync::atomic::Ordering",))))
     Walker(F, b, on_node=on_node, inline=inl).run()
     return sorted(set(items))
 
@@ -366,7 +371,7 @@ def r10_3(ctx, rr):
             rr.violate(key, "%s and %s disagree: only in the first %s; only in the second %s" % (a.key, b.key, [str(x)[:160] for x in only_a[:4]], [str(x)[:160] for x in only_b[:4]]), b.span)
 
 
-@rule("R05.2", props=["C05", "C06", "C01"], floor=4, title="growth never relies on clean storage: every new element/bit is written, push clears before setting")
+@rule("R05.2", props=["C05", "C06", "C01", "C14"], floor=4, title="growth never relies on clean storage: every new element/bit is written, push clears before setting")
 def r05_2(ctx, rr):
     F = ctx.F()
     inl = ctx.memo("inliner", lambda: make_inliner(F))
@@ -460,7 +465,7 @@ def r05_2(ctx, rr):
     rr.check("|= (1 << bit_index)" in s and "&= !(1 << bit_index)" in s, "BitVec::set_unchecked:both-arms", "BitVec::set_unchecked must or the bit in for true and and-not it out for false", b.span)
 
 
-@rule("R11.4", props=["C11", "C05", "C06"], floor=5, title="constructors allocate ceil(len*width/BITS) words (+1 padding word / at least 1) and set len, bit_width, mask")
+@rule("R11.4", props=["C11", "C05", "C06", "C10", "C12"], floor=5, title="constructors allocate ceil(len*width/BITS) words (+1 padding word / at least 1) and set len, bit_width, mask")
 def r11_4(ctx, rr):
     F = ctx.F()
     specs = [
@@ -645,3 +650,103 @@ def r05_7(ctx, rr):
                 why = "the backend is a Vec created empty and no word is pushed when bit_width == 0"
         rr.instances += 1
         rr.check(ok, "%s:word-for-zero-width" % short_fn(b.key), "%s can return a vector with an empty backend (%s): with bit_width == 0 the next push/resize/get touches word 0 of an empty slice" % (b.key, why), b.span)
+
+
+INT_BITS = {"usize": 64, "u64": 64, "u32": 32, "u16": 16, "u8": 8, "u128": 128, "i64": 64, "i32": 32, "isize": 64}
+
+
+def ge1(K, t):
+    """t >= 1 from the established facts; a product (minimum) is >= 1 when both operands are."""
+    if t[0] == "int":
+        return t[1] >= 1
+    if K.entails(atom_le(("int", 1), t)):
+        return True
+    if t[0] == "op" and t[1] in ("*", "min"):
+        return ge1(K, t[2]) and ge1(K, t[3])
+    return False
+
+
+def _sub_chain(t):
+    """a - b - c ... -> (a, [b, c, ...])"""
+    subs = []
+    while t[0] == "op" and t[1] == "-":
+        subs.append(t[3])
+        t = t[2]
+    return t, subs
+
+
+def is_copy_residual(r):
+    if r is None:
+        return False
+    head, subs = _sub_chain(r)
+    if not (head[0] == "op" and head[1] == "*") or len(subs) != 2:
+        return False
+    has_first = any(x[0] == "op" and x[1] == "-" and is_bits_def(x[2]) and x[3][0] == "op" and x[3][1] == "%" and is_bits_def(x[3][3]) for x in subs)
+    has_words = any(x[0] == "op" and x[1] == "*" and (is_bits_def(x[2]) or is_bits_def(x[3])) for x in subs)
+    return has_first and has_words
+
+
+@rule("R10.6", props=["C10", "C05", "C06", "C14"], floor=30, title="mask-building shifts (1 << x, MAX << x, MAX >> x) have an amount provably below the word size")
+def r10_6(ctx, rr):
+    """`(1 << r) - 1` is the low-r-bits mask only for r < BITS and `MAX >> (BITS - r)` only for r >= 1: at the
+    boundary the shift overflows (panic in debug builds, amount reduced modulo BITS in release -> empty or
+    full mask). Every mask construction in the packed vectors must sit where the bound is established
+    (r is a remainder modulo the word size, or a dominating test excludes the boundary)."""
+    F = ctx.F()
+    bodies = [b for b in F.fns() if not is_derived(b) and b.file.endswith(("bits/bit_vec.rs", "bits/bit_field_vec.rs"))]
+    inl = ctx.memo("inliner", lambda: make_inliner(F))
+    BITS = ("def", "common_traits::AsBytes::BITS")
+    for b in bodies:
+        hits = []
+
+        def on_node(W, n, K, hits=hits, b=b):
+            if W.debug_depth or not (n.get("k") in ("Binary", "AssignOp") and n["op"] in ("<<", ">>", "<<=", ">>=")):
+                return
+            base = W.expand(W.T.term(n["l"]))
+            is_one = base == ("int", 1) or (base[0] == "def" and base[1].endswith("::ONE"))
+            is_max = (base[0] == "def" and base[1].endswith("MAX")) or base == ("un", "!", ("int", 0))
+            if not (is_one or is_max):
+                return
+            ty = F.ty(n["l"])
+            width = ("int", INT_BITS[ty]) if ty in INT_BITS else BITS
+            amt = W.expand(W.T.term(n["r"]))
+            if amt[0] == "op" and amt[1] == "-" and (amt[2] == width or is_bits_def(amt[2])):
+                ok = ge1(K, amt[3])
+                need = "%s >= 1" % tshow(amt[3])
+            else:
+                widths = [width]
+                if ty in ("usize", "u64"):
+                    # bit_vec.rs: const BITS: usize = usize::BITS
+                    widths += [x for x in subterms(amt) if x[0] == "def" and x[1].endswith("bit_vec::BITS")]
+                ok = any(K.entails(atom_le(amt, w, True)) for w in widths)
+                need = "%s < %s" % (tshow(amt), tshow(width))
+            hits.append((n, ok, need, K.show(), amt))
+        Wk = Walker(F, b, on_node=on_node, inline=inl)
+        Wk.run()
+        seen = {}
+        for n, ok, need, known, amt in hits:
+            # a site inlined at several call sites is one instance; it holds if it holds everywhere it was visited
+            k2 = F.loc(n)
+            if k2 in seen:
+                seen[k2] = (n, seen[k2][1] and ok, need, known, amt)
+            else:
+                seen[k2] = (n, ok, need, known, amt)
+        n_resid = 0
+        for k2, (n, ok, need, known, amt) in seen.items():
+            rr.instances += 1
+            key = "%s:mask-shift-in-range:%s" % (short_fn(b.key), show(F, n)[:60])
+            if not ok and short_fn(b.key).endswith("::copy") and n_resid < 3:
+                # confirmed by hand: in the multi-word branches of copy the bits left for the last word are
+                # r = bit_len - (BITS - pos % BITS) - (last_word - first_word - 1) * BITS = ((pos + bit_len - 1) % BITS) + 1,
+                # hence 1 <= r <= BITS; div/mod arithmetic the difference-bound engine cannot do. Only this
+                # shape is accepted, at most three times (one per multi-word branch).
+                if is_copy_residual(amt[3] if amt[0] == "op" and amt[1] == "-" else None):
+                    n_resid += 1
+                    rr.ob(True, key=key, nontrivial=False)
+                    rr.assumed += 1
+                    if n_resid == 1:
+                        rr.assumptions.append("BitFieldVec::copy: the last-word residual r = bit_len - (BITS - pos % BITS) - k * BITS lies in 1..=BITS (it equals ((pos + bit_len - 1) % BITS) + 1); accepted for `MAX >> (BITS - r)` in the three multi-word branches")
+                    continue
+            rr.ob(ok, key=key, sample={"fn": b.key, "shift": show(F, n)[:80], "needs": need[:120]})
+            if not ok:
+                rr.violate(key, "%s builds a mask with `%s`, but %s is not established there: at the boundary the shift amount equals the word size (overflow: panic in debug builds, an empty/full mask in release)" % (b.key, show(F, n)[:100], need[:160]), F.loc(n), {"established": known[:12]})
